@@ -242,6 +242,17 @@ Definition save_script_enospc (m : pmap) (k : nat) : list sys :=
                    map (fun _ => SWriteFail Tmp) (skipn (k - 1) lines))
   else save_script m.
 
+(* descriptors the saver holds after running a script, given how many it held before *)
+Fixpoint fd_balance (script : list sys) (held : Z) : Z :=
+  match script with
+  | [] => held
+  | c :: r => fd_balance r (match c with
+                            | SOpenTrunc _ => held + 1
+                            | SClose _ | SCloseFail _ => held - 1
+                            | _ => held
+                            end)%Z
+  end.
+
 (* What a store created by a new process holds after Load(): LoadFromFile returns false and leaves
    the (empty) map alone when the file does not exist. *)
 Definition load_into (mem : pmap) (s : fs) : pmap :=
